@@ -76,7 +76,7 @@ PROPS = {
         ],
     },
     'C15': {
-        'units': ['lists'],
+        'units': ['lists', 'listops', 'append'],
         'functions': ['s_linked_list.rs::make_linked_list', 's_linked_list.rs::link_front'],
         'oracles': {'s_linked_list.rs::make_linked_list': 'c15_make_linked_list'},
         'not_covered': [
@@ -85,7 +85,20 @@ PROPS = {
     },
 }
 
+PROPS['C22'] = {
+    'units': [],
+    'functions': [],
+    'kani': {'quick': ['c22_start_query_resets', 'c22_stop_flag', 'c22_make_query_resets', 'c10_counter_contract'], 'thorough': []},
+    'oracles': {},
+    'not_covered': [
+        "that the engine reads no other cross-query state, and reads the stop flag / id counter only through count_rules / next_id: assumed (read, not proved)",
+        'start_query_timer spawns a thread (not harnessable); that its first statement clears the flag is read, not proved',
+        'parse_query is covered through make_query (it ends in make_query); the string parsing itself is outside',
+    ],
+}
+
 LEVEL = {p: 'proof' for p in PROPS}
+LEVEL['C22'] = 'proof'
 
 # trusted base items, by tag found in generated files (scan_assumptions)
 TRUSTED_TEXT = {
